@@ -2,6 +2,7 @@
   Props/C03.lean — translational sum rule. PROPERTY THEOREMS ONLY.
 -/
 import SymfcModel.Model.Inst
+import SymfcModel.Lemmas.LinAlg
 namespace Symfc.C03
 open Symfc
 
@@ -33,5 +34,20 @@ theorem batch_size_multiple_of_natom (N nb p : Nat) (hp : 1 ≤ p) :
 
 theorem batch_pows :
     Gen.sumRuleBatchPowO2 = 1 ∧ Gen.sumRuleBatchPowO3 = 2 ∧ Gen.sumRuleBatchPowO4 = 3 := by decide
+
+section L4
+open Matrix
+variable {K : Type*} [Field K] [LinearOrder K] [IsStrictOrderedRing K]
+variable {m k r : Type*} [Fintype m] [Fintype k] [Fintype r]
+
+/-- C03.c (L4): with `T` the matrix whose rows are the sum-rule functionals `t_r` (class-space rows of `c_sum_cplmt`),
+    `C` the compression matrix and ANY divisor ν > 0 (N or n_lp·N, as extracted), a vector is in the unit eigenspace
+    of the matrix handed to the eigen-solver, `1 − CᵀTᵀTC/ν`, iff every sum-rule functional vanishes on `C v`. -/
+theorem unit_eigenspace_is_the_sum_rule_kernel [DecidableEq k] (C : Matrix m k K) (T : Matrix r m K) (ν : K) (hν : 0 < ν)
+    (v : k → K) :
+    ((1 : Matrix k k K) - (1 / ν) • (Cᵀ * Tᵀ * T * C)) *ᵥ v = v ↔ T *ᵥ (C *ᵥ v) = 0 :=
+  LinAlg.sumrule_unit_iff C T ν hν v
+
+end L4
 
 end Symfc.C03
